@@ -26,6 +26,14 @@ CLAIMED = {
          "template_match = sum of squared differences (no-overflow regime); find marks a position iff the template occurs there, "
          "flush edges and template = image included. Model and extracted specification are run against the fresh build on generated inputs",
          "Rocq proof + translator + differential correspondence"),
+ "C13": ("proof", "Coq theorems: the per-label fold returns, for ANY operation and identity element, the fold over exactly the pixels "
+         "of that label (hence sum; max/min for regions not beyond the identity element, negative and floating values included); "
+         "histogram = value counts; relabel preserves partition and background and numbers 1..n in scan order of first appearance "
+         "(shared renumbering lemma); remove_regions zeroes exactly the selected regions; borders marks a pixel iff a neighbour under the "
+         "mathematical border rule differs (any dimension/mode/neighbourhood, through the re-translated fix_offset). is_same_labeling, "
+         "bbox (both paths), labeled.bbox and center_of_mass have executable models compared with executable Coq specifications and with "
+         "the fresh build on generated inputs",
+         "Rocq proof + translator + differential correspondence"),
 }
 NOT_YET = "check not built yet in this round (see DESIGN.md section 8 for the plan)"
 ALL = ["C%02d" % i for i in range(1, 21)]
